@@ -121,7 +121,8 @@ func PushDownFilterPredicatesIntoStreamJoinBranch(node Node) (Node, bool) {
 func UsesVariablesFromSchema(schema Schema, variables []string) bool {
 	for _, name := range variables {
 		for _, field := range schema.Fields {
-			if VariableNameMatchesField(name, field.Name) {
+			// Both are unique names, which have to be compared exactly (k_0 isn't a.k_0).
+			if name == field.Name {
 				return true
 			}
 		}
